@@ -10,7 +10,7 @@ if ! git apply --check "$patch" 2>/dev/null; then echo "patch does not apply: $p
 git apply "$patch"
 cd /verif
 for p in "$@"; do
-  out=$(bin/check "$p" --tier quick 2>&1); rc=$?
+  out=$(VERIF_NOSHRINK=1 bin/check "$p" --tier quick 2>&1); rc=$?
   v=$(echo "$out" | grep -m1 "^VIOLATION")
   d=$(echo "$out" | grep -A1 -m1 "^VIOLATION" | tail -1 | cut -c1-220)
   if [ $rc -eq 1 ] && [ -n "$v" ]; then echo "$p DETECTED rc=$rc :: $v :: $d";
